@@ -4,6 +4,101 @@ import ast
 from . import common
 
 
+WAIT = {'all': all, 'any': any, 'object': object}
+OUTCOMES = ['n', 'v', 'e', 'c']
+
+
+async def _stop_row(curio, policy, outcome, before):
+    """One iteration of join()'s loop on the real class: a member that has finished with
+    `outcome` is queued, another member is running; does join() go on waiting or stop (= cancel
+    the other member), and is `completed` set to the finished one?  `before`: `completed` had
+    already been set (public attribute) when join() ran."""
+    import asyncio
+    loop = asyncio.get_running_loop()
+    g = curio.TaskGroup(wait=WAIT[policy])
+    gate, block = loop.create_future(), loop.create_future()
+
+    async def member():
+        k = await gate
+        if k == 'e':
+            raise KeyError('probe')
+        if k == 'c':
+            raise curio.CancelledError()
+        return None if k == 'n' else 1
+
+    async def other():
+        await block
+
+    async def dummy():
+        return 1
+
+    t = await g.spawn(member)
+    o = await g.spawn(other)
+    gate.set_result(outcome)
+    for _ in range(6):
+        await asyncio.sleep(0)
+    if before:
+        marker = loop.create_task(dummy())
+        for _ in range(3):
+            await asyncio.sleep(0)
+        g.completed = marker
+    j = loop.create_task(g.join())
+    for _ in range(10):
+        await asyncio.sleep(0)
+    stopped = bool(o.cancelling() > 0 or o.done())
+    completed_is_t = g.completed is t
+    block.cancel()
+    o.cancel()
+    j.cancel()
+    await asyncio.gather(j, o, t, return_exceptions=True)
+    return stopped, completed_is_t
+
+
+async def _next_done_rows(curio):
+    """next_done() on the three reachable situations of an idle group"""
+    import asyncio
+    loop = asyncio.get_running_loop()
+    rows = []
+    g = curio.TaskGroup()
+    rows.append(('empty', 'none' if await g.next_done() is None else 'other'))
+
+    async def quick():
+        return 1
+
+    g = curio.TaskGroup()
+    t = await g.spawn(quick)
+    for _ in range(4):
+        await asyncio.sleep(0)
+    r = await g.next_done()
+    rows.append(('one-done', 'head' if r is t else ('none' if r is None else 'other')))
+    g = curio.TaskGroup()
+    block = loop.create_future()
+
+    async def slow():
+        await block
+
+    t = await g.spawn(slow)
+    c = loop.create_task(g.next_done())
+    for _ in range(6):
+        await asyncio.sleep(0)
+    rows.append(('one-pending', 'blocks' if not c.done() else 'returns'))
+    c.cancel()
+    block.cancel()
+    t.cancel()
+    await asyncio.gather(c, t, return_exceptions=True)
+    return rows
+
+
+async def _tables(curio):
+    stop = []
+    for pol in ('all', 'any', 'object'):
+        for oc in OUTCOMES:
+            for before in (False, True):
+                st, ct = await _stop_row(curio, pol, oc, before)
+                stop.append([pol, oc, before, st, ct])
+    return stop, [list(r) for r in await _next_done_rows(curio)]
+
+
 def extract(repo):
     curio = common.fresh_import(repo, 'aiorpcx.curio')
     tree = common.parse(repo, 'aiorpcx/curio.py')
@@ -20,6 +115,8 @@ def extract(repo):
                 admitted.append(name)
             except ValueError:
                 pass
+        stop_table, next_done_table = loop.run_until_complete(
+            asyncio.wait_for(_tables(curio), timeout=60))
     finally:
         asyncio.set_event_loop(None)
         loop.close()
@@ -43,6 +140,8 @@ def extract(repo):
         'admitted_policies': admitted,
         'join_finally_loops': finally_loops,
         'joined_set_last_in_finally': finally_sets_joined_last,
+        'stop_table': stop_table,
+        'next_done_table': next_done_table,
         'fingerprints': common.fingerprints(repo, {
             'aiorpcx/curio.py': ['TaskGroup.__init__', 'TaskGroup._on_done', 'TaskGroup._add_task',
                                  'TaskGroup.next_done', 'TaskGroup.next_result', 'TaskGroup.join',
@@ -65,4 +164,13 @@ def render(f):
         f'def joinFinallyLoops : Bool := {b(f["join_finally_loops"])}\n'
         '/-- `self.joined = True` is the last statement of that clause -/\n'
         f'def joinedSetLast : Bool := {b(f["joined_set_last_in_finally"])}\n'
+        '/-- one iteration of the `join()` loop, probed on the real class: (policy, outcome of the\n'
+        '    popped member n|v|e|c, `completed` already set?, join stops and cancels the rest?,\n'
+        '    `completed` is now the popped member?) -/\n'
+        'def stopTable : List (String × String × Bool × Bool × Bool) := ['
+        + ', '.join(f'("{r[0]}", "{r[1]}", {b(r[2])}, {b(r[3])}, {b(r[4])})' for r in f['stop_table'])
+        + ']\n'
+        '/-- `next_done()` on an idle group: nothing there / one finished member / one pending -/\n'
+        'def nextDoneTable : List (String × String) := ['
+        + ', '.join(f'("{r[0]}", "{r[1]}")' for r in f['next_done_table']) + ']\n'
         'end Aiorpcx.Facts.C09\n')
